@@ -227,7 +227,7 @@ class StubSftpServer:
         fs = self.fs
         pol = self.policy
 
-        if t == OPEN:
+        if t == OPEN and not pol.get('hostile_tree'):
             path = fs.norm(r.string())
             pflags = r.u32()
             parse_attrs_v3(r)
@@ -317,6 +317,72 @@ class StubSftpServer:
 
             return status(rid, FX_OK)
 
+        if t == OPENDIR:
+            path = r.string()
+            listing = pol.get('listings', {}).get(path.decode('latin-1'))
+
+            if listing is None:
+                return status(rid, FX_NO_SUCH_FILE, b'no such dir')
+
+            self.next_handle += 1
+            h = b'd%d' % self.next_handle
+            self.handles[h] = [path, list(listing)]
+            return bytes([HANDLE]) + u32(rid) + string(h)
+
+        if t == READDIR:
+            h = r.string()
+            ent = self.handles.get(h)
+
+            if ent is None or not isinstance(ent, list):
+                return status(rid, FX_FAILURE, b'bad handle')
+
+            if not ent[1]:
+                return status(rid, FX_EOF, b'eof')
+
+            names, ent[1] = ent[1], []
+            out = bytes([NAME]) + u32(rid) + u32(len(names))
+
+            for name, kind in names:
+                nb = name.encode('latin-1')
+                perm = {'d': 0o040755, 'l': 0o120777}.get(kind, 0o100644)
+                out += string(nb) + string(b'-rw-r--r-- 1 u g 5 Jan 1 ' + nb) \
+                    + attrs_v3(size=5, perm=perm, uid=1, gid=1, atime=1,
+                               mtime=1)
+
+            return out
+
+        if t == READLINK:
+            path = r.string()
+            target = pol.get('links', {}).get(path.decode('latin-1'),
+                                              'nowhere')
+            tb = target.encode('latin-1')
+            return bytes([NAME]) + u32(rid) + u32(1) + string(tb) + \
+                string(tb) + attrs_v3()
+
+        if pol.get('hostile_tree') and t in (STAT, LSTAT):
+            # type by what the listings said about this path, else file
+            path = r.string().decode('latin-1')
+            kind = pol.get('kinds', {}).get(path)
+
+            if path in pol.get('listings', {}):
+                kind = 'd'
+
+            perm = {'d': 0o040755, 'l': 0o120777}.get(kind, 0o100644)
+
+            if kind == 'l' and t == STAT:
+                perm = 0o100644
+
+            return bytes([ATTRS]) + u32(rid) + attrs_v3(
+                size=5, perm=perm, uid=1, gid=1, atime=1, mtime=1)
+
+        if pol.get('hostile_tree') and t == OPEN:
+            path = r.string()
+            self.next_handle += 1
+            h = b'h%d' % self.next_handle
+            fs.files.setdefault(b'/__pwned__', bytearray(b'pwned'))
+            self.handles[h] = (b'/__pwned__', FXF_READ)
+            return bytes([HANDLE]) + u32(rid) + string(h)
+
         if t in (STAT, LSTAT):
             path = fs.norm(r.string())
 
@@ -370,3 +436,40 @@ class StubSftpServer:
             return status(rid, FX_OK)
 
         return status(rid, FX_OP_UNSUPPORTED, b'unsupported')
+
+
+class RawSftp:
+    """Scripted SFTP requester over a raw byte channel (asyncssh
+       SSHWriter/SSHReader with encoding=None)"""
+
+    def __init__(self, writer, reader):
+        self.w = writer
+        self.r = reader
+        self.next_id = 1
+
+    def send(self, payload):
+        self.w.write(frame(payload))
+
+    async def recv(self):
+        hdr = await self.r.readexactly(4)
+        n = struct.unpack('>I', hdr)[0]
+        return await self.r.readexactly(n)
+
+    async def init(self, version=3):
+        self.send(bytes([INIT]) + u32(version))
+        p = await self.recv()
+        r = Reader(p, 1)
+        ver = r.u32()
+        exts = []
+
+        while not r.at_end():
+            exts.append((r.string(), r.string()))
+
+        return ver, exts
+
+    async def request(self, t, body):
+        rid = self.next_id
+        self.next_id += 1
+        self.send(bytes([t]) + u32(rid) + body)
+        p = await self.recv()
+        return rid, p
